@@ -200,6 +200,29 @@ func pairPhase(rounds int) {
 		if got != 1 || r%10 == 0 {
 			tr.Emit("mc.pair", "k", k, "got", got)
 		}
+		if r%5 == 0 {
+			// what the cache keeps is its own: the caller overwrites the key and value buffers it passed to Store
+			// as soon as Store has returned (the proxy hands them back to the buffer pool); the entry is still
+			// found under the key and holds the value
+			k3 := 2000000 + r
+			kb, vb := keyBytes(k3), mkValue(k3, 1, exp, 24)
+			c.Store(kb, epoch.Add(time.Duration(k3*100000+1)*time.Second), exp, vb, r%10 == 0)
+			for j := range kb {
+				kb[j] = 0xDB
+			}
+			for j := range vb {
+				vb[j] = 0xDB
+			}
+			v3, _, _ := c.Get(keyBytes(k3))
+			hit, intact := v3 != nil, false
+			if hit {
+				intact = string(v3) == string(mkValue(k3, 1, exp, 24))
+				pool.ReleaseBuf(v3)
+			}
+			if !hit || !intact || r%50 == 0 {
+				tr.Emit("mc.keep", "k", k3, "hit", hit, "intact", intact)
+			}
+		}
 	}
 	round.Store(-1)
 	tr.Emit("mc.sum", "gets", rounds, "hits", rounds, "stores", 2*rounds, "odd", neg)
